@@ -33,13 +33,14 @@ type Case struct {
 	Dst     *gen.Tree    `json:"dst"`
 	Policy  model.Policy `json:"policy"`
 	ViaNew  bool         `json:"vianew,omitempty"` // destination created by NewFrom(in) instead of Merge into an existing one
+	NoSep   bool         `json:"nosep,omitempty"`  // no path separator given
 	Ops     []Op         `json:"ops"`
 }
 
 var keys = []string{"a", "b", "sub", "l", "c", "a", "b"}
 var opNames = []string{"a", "b", "sub.a", "l.1.a", "a.b", "0.a", "sub", "l", "l.0", "c", "sub.l.1", "w.a", "w.sub.a", "r1"}
 
-const nEmbed = 12
+const nEmbed = 15
 
 func genCase(t *rapid.T) Case {
 	cfg := &gen.TreeCfg{Depth: 3, Width: 4, Keys: keys, NoFloat: true}
@@ -48,6 +49,7 @@ func genCase(t *rapid.T) Case {
 		Embed: rapid.IntRange(0, nEmbed-1).Draw(t, "embed"), Dst: gen.GenObj(t, cfg, 3),
 		Policy: model.Policy(rapid.IntRange(0, int(model.NPolicies)-1).Draw(t, "policy")),
 		ViaNew: rapid.IntRange(0, 5).Draw(t, "vianew") == 0,
+		NoSep:  rapid.IntRange(0, 3).Draw(t, "nosep") == 0,
 	}
 	n := rapid.IntRange(1, 6).Draw(t, "nops")
 	for i := 0; i < n; i++ {
@@ -55,6 +57,20 @@ func genCase(t *rapid.T) Case {
 			Name: rapid.SampledFrom(opNames).Draw(t, "name"), Idx: rapid.SampledFrom([]int{-1, -1, 0, 1, 3}).Draw(t, "idx")})
 	}
 	return c
+}
+
+type overlapHolder struct {
+	C *ucfg.Config           `config:"sub"`
+	M map[string]interface{} `config:",inline"`
+}
+
+type inlineStruct struct {
+	Sub map[string]interface{} `config:"sub"`
+}
+
+type overlapHolder2 struct {
+	M  map[string]*ucfg.Config `config:",inline"`
+	In inlineStruct            `config:",inline"`
 }
 
 type inlineHolder struct {
@@ -89,9 +105,16 @@ func embed(kind int, s *ucfg.Config) (interface{}, bool) {
 		return map[string]interface{}{"sub": s, "sub.zz": 1}, true
 	case 10:
 		return map[string]interface{}{"w": map[string]interface{}{"sub": s}, "w.sub.zz.q": true, "w.sub.l.5": "x"}, true
-	default:
+	case 11:
 		// ... or an object that overlaps it
 		return map[string]interface{}{"sub": s, "sub.zz": map[string]interface{}{"n": 1}, "sub.a.zz": []int{1}}, true
+	case 12:
+		// two fields of a struct that land under the same name: the config and an inlined map
+		return overlapHolder{C: s, M: map[string]interface{}{"sub": map[string]interface{}{"zz": 1, "l": []interface{}{nil, nil, "x"}}}}, true
+	case 13:
+		return overlapHolder2{M: map[string]*ucfg.Config{"sub": s}, In: inlineStruct{Sub: map[string]interface{}{"zz": true}}}, true
+	default:
+		return map[string]interface{}{"l": []interface{}{s}, "l.0.zz": 1, "l.0": map[string]interface{}{"q": 2}}, true
 	}
 }
 
@@ -112,6 +135,38 @@ func (s *side) snap(opts []ucfg.Option) error {
 	return nil
 }
 
+// parentLinks checks the stored tree of c: every value names the config that actually contains it as its parent
+// (a value copied into a tree must not keep pointing into the tree it was copied from).
+func parentLinks(c *ucfg.Config, what string) error {
+	var walk func(n ucfg.VerifNode, path string) error
+	walk = func(n ucfg.VerifNode, path string) error {
+		check := func(ch ucfg.VerifNode, seg string) error {
+			if ch.Kind == "<nil interface>" {
+				return nil
+			}
+			if ch.Parent != n.Self {
+				return fmt.Errorf("%s: the value stored at %q names config %x as its parent, the config that contains it is %x", what, path+seg, ch.Parent, n.Self)
+			}
+			if ch.Kind == "sub" {
+				return walk(ch, path+seg+".")
+			}
+			return nil
+		}
+		for i, name := range n.Names {
+			if err := check(n.Dict[i], name); err != nil {
+				return err
+			}
+		}
+		for i, e := range n.Arr {
+			if err := check(e, fmt.Sprint(i)); err != nil {
+				return err
+			}
+		}
+		return nil
+	}
+	return walk(ucfg.VerifSnapshot(c), "")
+}
+
 func (s *side) unchanged(opts []ucfg.Option, after string) error {
 	if fp := ucfg.VerifFingerprint(s.c, true); fp != s.fp {
 		return fmt.Errorf("the %s changed %s:\n--- stored tree before\n%s--- after\n%s", s.name, after, s.fp, fp)
@@ -129,6 +184,9 @@ func (s *side) unchanged(opts []ucfg.Option, after string) error {
 
 func runCase(c Case, r *runlog.R) error {
 	opts := []ucfg.Option{ucfg.PathSep("."), ucfg.VarExp}
+	if c.NoSep {
+		opts = []ucfg.Option{ucfg.VarExp}
+	}
 	srcData := c.Src.Go().(map[string]interface{})
 	if c.Refs {
 		srcData["r1"] = "${a}"
@@ -173,7 +231,7 @@ func runCase(c Case, r *runlog.R) error {
 		}
 		if err := uc.Safe("Merge", func() error { return D.Merge(in, mopts...) }); err != nil {
 			if c.Embed >= 9 && !strings.Contains(err.Error(), "panicked") {
-				// the dotted sibling may collide with a setting of the source: the input is rejected, the source
+				// the sibling may collide with a setting of the source: the input is rejected, the source
 				// must be untouched all the same
 				if e := src.unchanged(opts, "by a rejected merge that embeds it"); e != nil {
 					return e
@@ -203,6 +261,12 @@ func runCase(c Case, r *runlog.R) error {
 		if w2, ok := da[a]; ok {
 			return fmt.Errorf("source and destination share a %s/%s (address %x)", what, w2, a)
 		}
+	}
+	if err := parentLinks(D, "destination after the merge"); err != nil {
+		return err
+	}
+	if err := parentLinks(S, "source after the merge"); err != nil {
+		return err
 	}
 	// (3) later writes on one side are invisible through the other
 	dst := &side{name: "destination", c: D}
@@ -240,6 +304,9 @@ func runCase(c Case, r *runlog.R) error {
 			return err
 		}
 		target.snap(opts)
+		if err := parentLinks(target.c, fmt.Sprintf("%s after op %d (%s)", target.name, i, what)); err != nil {
+			return err
+		}
 	}
 	overlap := false
 	if !c.ViaNew {
@@ -255,6 +322,7 @@ func runCase(c Case, r *runlog.R) error {
 	r.ClassIf(c.AsChild, "source is a child")
 	r.ClassIf(c.Refs, "source has references")
 	r.ClassIf(c.ViaNew, "destination created by NewFrom")
+	r.ClassIf(c.NoSep, "no path separator")
 	return nil
 }
 
@@ -273,11 +341,11 @@ func readRefs(s *ucfg.Config, opts []ucfg.Option) string {
 
 var subMerge = runlog.Register(&runlog.Sub[Case]{
 	Name: "merge-independence",
-	Rule: "a source config (optionally with references to its own settings, optionally a child of a larger config) is merged from directly or embedded in a map, list (twice), struct field and slice, pointer to pointer, top-level list, inline field, typed map of configs, interface-keyed map with arrays, and next to dotted keys of the same input that define settings below or overlapping the embedded config; destination overlapping or created by NewFrom; all five policies; then 1-6 writes (SetInt, SetString with index, SetChild, Remove, append-merge, replace-merge) on either side. Oracle: stored tree of the source incl. names, parent links and addresses (hook fingerprint) identical before/after, Path/Parent/Unpack/own references unchanged; address sets of configs, field tables, maps and list backings disjoint; after every write the other side's fingerprint and Unpack are unchanged. Non-trivial: source embedded below the top level or merged over an overlapping destination, and at least one later write. Distinct: hash of the case.",
+	Rule: "a source config (optionally with references to its own settings, optionally a child of a larger config) is merged from directly or embedded in a map, list (twice), struct field and slice, pointer to pointer, top-level list, inline field, typed map of configs, interface-keyed map with arrays, next to dotted keys of the same input that define settings below or overlapping the embedded config, and as a struct field next to an inlined map/struct that lands under the same name; with and without a path separator; destination overlapping or created by NewFrom; all five policies; then 1-6 writes (SetInt, SetString with index, SetChild, Remove, append-merge, replace-merge) on either side. Oracle: stored tree of the source incl. names, parent links and addresses (hook fingerprint) identical before/after, Path/Parent/Unpack/own references unchanged; address sets of configs, field tables, maps and list backings disjoint; every stored value of either tree names the config that contains it as its parent (after the merge and after every write); after every write the other side's fingerprint and Unpack are unchanged. Non-trivial: source embedded below the top level or merged over an overlapping destination, and at least one later write. Distinct: hash of the case.",
 	Gen:  genCase,
 	Run:  runCase,
 })
 
-func TestMergeIndependence(t *testing.T) { subMerge.Check(t, 50000, 3000000) }
+func TestMergeIndependence(t *testing.T) { subMerge.Check(t, 100000, 3000000) }
 
 func TestReplay(t *testing.T) { runlog.ReplayMain(t) }
